@@ -1,6 +1,6 @@
 #!/usr/bin/env python3
 """C17 job: the mlar sub-commands agree with each other and with the input files.
-usage: c17_job.py <harness binary (unused)> <workdir> <tier> <seed> <out.jsonl>
+usage: c17_job.py <harness binary (its `info-aux` helper: brotli, float formatting)> <workdir> <tier> <seed> <out.jsonl>
 Needs VERIF_BINDIR (directory holding the mlar binary built from /repo's working tree).
 Oracle-only cases: one JSON line per pipeline."""
 import hashlib, io, json, os, random, re, shutil, subprocess, sys, tarfile
@@ -561,8 +561,200 @@ def model_cases(mlar, rng, work, tier, f):
         shutil.rmtree(d, ignore_errors=True)
 
 
+# ---------------------------------------------------------------------------------------------
+# work package info: `mlar info` / `mlar info -v`, with and without -k, on created archives of the
+# four layer combinations; model-compared through coq/theories/RunC17Info.v (lines as rows).
+# The oracle does not use the model: flags = the create arguments, recipients = number of -p keys,
+# rate = sum of the input sizes / compressed size, the latter from THIS script's own parser of the
+# archive (header length, 16-byte tag per 128 KiB chunk, SizesInfo footer).
+
+CHUNK_PROD = 128 * 1024
+
+
+def aux(harness, mode, lines):
+    p = subprocess.run([harness, "info-aux", mode], input=("\n".join(lines) + "\n").encode(), stdout=subprocess.PIPE, stderr=subprocess.PIPE, timeout=120)
+    if p.returncode != 0:
+        raise RuntimeError("info-aux %s failed: %s" % (mode, p.stderr[-200:]))
+    return p.stdout.decode().splitlines()
+
+
+def parse_header(ab):
+    """-> (layers byte, number of recipients or None, header length); raises on anything unexpected"""
+    if ab[:3] != b"MLA" or int.from_bytes(ab[3:7], "little") != 1:
+        raise ValueError("magic / version")
+    layers, opt = ab[7], ab[8]
+    if opt == 0:
+        return layers, None, 9
+    n = int.from_bytes(ab[9 + 32:9 + 40], "little")
+    return layers, n, 9 + 32 + 8 + 48 * n + 8
+
+
+def mid_length(body_len):
+    """length of the stream under the encryption layer: chunks of CHUNK bytes, each followed by a 16-byte tag"""
+    nch = (body_len + CHUNK_PROD + 15) // (CHUNK_PROD + 16)
+    return body_len - 16 * nch
+
+
+def comp_blocks(mid):
+    """compressed blocks of an unencrypted compressed stream, from its SizesInfo footer"""
+    l = int.from_bytes(mid[-4:], "little")
+    si = mid[-4 - l:-4]
+    n = int.from_bytes(si[:8], "little")
+    sizes = [int.from_bytes(si[8 + 4 * i:12 + 4 * i], "little") for i in range(n)]
+    if 8 + 4 * n + 4 != l or sum(sizes) + l + 4 != len(mid):
+        raise ValueError("SizesInfo does not add up")
+    blocks, o = [], 0
+    for c in sizes:
+        blocks.append(mid[o:o + c])
+        o += c
+    return blocks
+
+
+def info_rows(rc, out):
+    return [[0, rc]] + [[1] + B(l) for l in out.split(b"\n")[:-1]] + ([[1] + B(out.split(b"\n")[-1])] if out and not out.endswith(b"\n") else [])
+
+
+def ser_footer(entries):
+    """bincode (fixint) of HashMap<String, FileInfo{offsets: Vec<u64>, size: u64, eof_offset: u64}>"""
+    b = len(entries).to_bytes(8, "little")
+    for name, offsets, size, eof in entries:
+        b += len(name).to_bytes(8, "little") + name
+        b += len(offsets).to_bytes(8, "little") + b"".join(o.to_bytes(8, "little") for o in offsets)
+        b += size.to_bytes(8, "little") + eof.to_bytes(8, "little")
+    return b
+
+
+def info_cases(mlar, harness, rng, work, tier, f):
+    shutil.rmtree(work, ignore_errors=True)
+    os.makedirs(work)
+    ovf = 1      # cargo_repo builds the dev profile: overflow checks are on
+    combos = [(e, c) for e in (False, True) for c in (False, True)]
+    reps = 3 if tier == "thorough" else 1
+    k = 0
+    for rep in range(reps):
+        for enc, comp in combos:
+            d = os.path.join(work, "i%d" % k)
+            src = os.path.join(d, "in")
+            os.makedirs(src)
+            files = gen_small(rng, src, rng.randint(1, 4), allow_special=False)
+            if rep == 0 and comp and not enc:
+                big = (b"compressible " * 400)[:5000]
+                open(os.path.join(src, "big.txt"), "wb").write(big)
+                files.append(("big.txt", big))
+            nrec = (k % 3) + 1 if enc else 0
+            keyset = KEYS[:3][:nrec] if rep == 0 else rng.sample(KEYS, nrec)
+            arch = os.path.join(d, "a.mla")
+            cargs = ["create", "-o", arch] + layer_args(enc, comp)
+            for _, pub in keyset:
+                cargs += ["-p", os.path.join(SAMPLES, pub)]
+            rc, out, err = run(mlar, cargs + ["--"] + [n for n, _ in files], src)
+            cls0 = "info enc=%d comp=%d recipients=%d" % (enc, comp, nrec)
+            if rc != 0:
+                f.write(json.dumps({"id": "c17-info-%d" % k, "fn": "", "args": [], "impl": [], "oracle_ok": False, "oracle_msg": "create failed rc %d" % rc,
+                                    "class": cls0, "nontrivial": True, "meta": {}}) + "\n")
+                k += 1
+                continue
+            ab = open(arch, "rb").read()
+            total = sum(len(dta) for _, dta in files)
+            msgs0, table, csize = [], [], None
+            try:
+                layers, nrec_hdr, hlen = parse_header(ab)
+                body = ab[hlen:]
+                if comp:
+                    if enc:
+                        csize = mid_length(len(body)) - 20          # one compression block (inputs far below 4 MiB): SizesInfo 16 + 4
+                    else:
+                        blocks = comp_blocks(body)
+                        csize = sum(len(b_) for b_ in blocks)
+                        plains = aux(harness, "brotli-dec", [b_.hex() for b_ in blocks])
+                        table = [[B(b_), B(bytes.fromhex(p_))] for b_, p_ in zip(blocks, plains)]
+            except Exception as e:  # noqa: BLE001
+                msgs0.append("the job's parser does not understand the archive: %s" % e)
+            kfile = os.path.join(SAMPLES, keyset[-1][0]) if enc else os.path.join(SAMPLES, KEYS[3][0])
+            for verbose in (0, 1):
+                for withkey in (0, 1):
+                    args = ["info"] + (["-v"] if verbose else []) + ["-i", arch] + (["-k", kfile] if withkey else [])
+                    rc, out, err = run(mlar, args, d)
+                    impl = info_rows(rc, out)
+                    # ---- the oracle
+                    msgs = list(msgs0)
+                    if enc and comp and not withkey:
+                        want = (1, b"")
+                    else:
+                        t = "Format version: 1\nEncryption: %s\n" % ("true" if enc else "false")
+                        if enc and verbose:
+                            t += "  Recipients: %d\n" % nrec
+                        t += "Compression: %s\n" % ("true" if comp else "false")
+                        if comp and verbose and csize:
+                            t += "  Compression rate: %.2f\n" % (total / csize)
+                        want = (0, t.encode())
+                    if (rc, out) != want:
+                        msgs.append("info%s%s: status %d, output %r; the create arguments and the input sizes give status %d, %r" % (
+                            " -v" if verbose else "", " -k" if withkey else "", rc, out[:120], want[0], want[1][:120]))
+                    # ---- the model
+                    if comp and enc and withkey:
+                        fn, margs = "c17i_spec", [verbose, 1, nrec, 1, total, csize or 0]
+                    else:
+                        fn, margs = "c17i_arch", [B(ab), withkey, verbose, ovf, table]
+                    f.write(json.dumps({"id": "c17-info-%d-v%d-k%d" % (k, verbose, withkey), "fn": fn, "args": margs, "impl": impl,
+                                        "oracle_ok": not msgs, "oracle_msg": "; ".join(msgs[:2]),
+                                        "class": cls0 + " verbose=%d key=%d" % (verbose, withkey), "nontrivial": True,
+                                        "meta": {"files": len(files), "total": total, "compressed": csize, "archive_bytes": len(ab)}}) + "\n")
+                    # compressed, not encrypted: also the file-level prediction
+                    if comp and not enc and not msgs0:
+                        f.write(json.dumps({"id": "c17-info-%d-v%d-k%d-spec" % (k, verbose, withkey), "fn": "c17i_spec",
+                                            "args": [verbose, 0, 0, 1, total, csize], "impl": impl, "oracle_ok": True, "oracle_msg": "",
+                                            "class": cls0 + " spec", "nontrivial": True, "meta": {}}) + "\n")
+            shutil.rmtree(d, ignore_errors=True)
+            k += 1
+    # ---- crafted archives reaching the panic sites of `info` (NOTES: info is outside the operations of C08; the rows tie
+    # the model's crash claims to the real binary, the oracle has nothing to say)
+    d = os.path.join(work, "w")
+    os.makedirs(d)
+    w1 = b"MLA\x01\x00\x00\x00\x01\x00"
+    foot = ser_footer([(b"a", [0], 2 ** 63, 0), (b"b", [0], 2 ** 63, 0)])
+    plain = foot + len(foot).to_bytes(4, "little")
+    cb = bytes.fromhex(aux(harness, "brotli-enc", [plain.hex()])[0])
+    si = (1).to_bytes(8, "little") + len(cb).to_bytes(4, "little") + len(plain).to_bytes(4, "little")
+    w2 = b"MLA\x01\x00\x00\x00\x02\x00" + cb + si + len(si).to_bytes(4, "little")
+    for name, ab, table in (("enc-without-config", w1, []), ("files-sum-overflow", w2, [[B(cb), B(plain)]])):
+        pth = os.path.join(d, name + ".mla")
+        open(pth, "wb").write(ab)
+        for verbose in (0, 1):
+            rc, out, err = run(mlar, ["info"] + (["-v"] if verbose else []) + ["-i", pth], d)
+            f.write(json.dumps({"id": "c17-info-crafted-%s-v%d" % (name, verbose), "fn": "c17i_arch", "args": [B(ab), 0, verbose, ovf, table],
+                                "impl": info_rows(rc, out), "oracle_ok": True, "oracle_msg": "",
+                                "class": "info crafted %s" % name, "nontrivial": True,
+                                "meta": {"status": rc, "stderr": err[:160].decode("utf8", "replace"), "hex": ab.hex() if len(ab) < 200 else ab[:64].hex() + ".."}}) + "\n")
+    # ---- the two-decimal rendering of the quotient: core::fmt on generated pairs vs CliInfo.rate_text
+    pairs = [(0, 3), (5, 0), (0, 0), (1, 8), (3, 8), (5, 8), (7, 8), (1, 16), (3, 16), (1, 32), (1, 3), (2, 3), (1, 200), (1, 201), (199, 200),
+             (2 ** 64 - 1, 1), (2 ** 64 - 1, 2 ** 64 - 1), (1, 2 ** 64 - 1), (2 ** 53 + 1, 1), (2 ** 53 + 1, 3), (2 ** 63 + 1025, 7), (9, 2 ** 63 + 1),
+             (995, 1000), (1005, 1000), (2675, 1000), (1, 1000), (4, 1000), (5, 1000), (6, 1000), (15, 1000), (25, 1000), (35, 1000)]
+    n_rand = 400 if tier == "thorough" else 60
+    for i in range(n_rand):
+        m = i % 4
+        if m == 0:
+            pairs.append((rng.randint(0, 10 ** 7), rng.randint(1, 10 ** 6)))
+        elif m == 1:
+            pairs.append((rng.randint(0, 2 ** 64 - 1), rng.randint(1, 2 ** 64 - 1)))
+        elif m == 2:
+            q = 2 ** rng.randint(1, 20)
+            pairs.append((rng.randrange(1, 64 * q, 2), 8 * q))      # many exact ties at the third decimal
+        else:
+            pairs.append((rng.randint(2 ** 52, 2 ** 56), rng.randint(1, 50)))
+    texts = aux(harness, "fmt-rate", ["%d %d" % p_ for p_ in pairs])
+    for j in range(0, len(pairs), 16):
+        chunk = pairs[j:j + 16]
+        got = texts[j:j + 16]
+        bad = [p_ for p_, t_ in zip(chunk, got) if p_[1] and p_[0] < 2 ** 53 and p_[1] < 2 ** 53 and t_ != "%.2f" % (p_[0] / p_[1])]
+        f.write(json.dumps({"id": "c17-info-rate-%d" % (j // 16), "fn": "c17i_rate", "args": [[list(p_) for p_ in chunk]], "impl": [B(t_.encode()) for t_ in got],
+                            "oracle_ok": not bad, "oracle_msg": "" if not bad else "format!(\"{:.2}\") of %d / %d differs from the correctly rounded quotient" % bad[0],
+                            "class": "info rate rendering", "nontrivial": True, "meta": {"pairs": len(chunk)}}) + "\n")
+    shutil.rmtree(work, ignore_errors=True)
+
+
 def main():
-    _, _harness, work, tier, seed, outp = sys.argv
+    _, harness, work, tier, seed, outp = sys.argv
     mlar = os.path.join(os.environ["VERIF_BINDIR"], "mlar")
     os.makedirs(work, exist_ok=True)
     rng = random.Random(int(seed) * 7919 + 17)
@@ -577,6 +769,7 @@ def main():
                                 "class": cls, "nontrivial": True, "meta": meta}) + "\n")
         model_cases(mlar, random.Random(int(seed) * 104729 + 5), os.path.join(work, "model"), tier, f)
         dotdot_cases(mlar, os.path.join(work, "dotdot"), f)
+        info_cases(mlar, harness, random.Random(int(seed) * 15485863 + 11), os.path.join(work, "info"), tier, f)
 
 
 def dotdot_cases(mlar, work, f):
